@@ -5,6 +5,7 @@
   `file.seek(n); file.read(k)`, `bytes.find / rfind` of the line-feed token, `//` and `%` mean.
 -/
 import SkModel.Seeker
+import SkModel.Store
 
 namespace Sk.Py
 
@@ -57,6 +58,20 @@ def lineLen (l : LLine) : Int := (l.endOffset - l.startOffset) + 1
     `false` (the callers pass offsets taken from `range(len(file))`). -/
 def isLineFeed (F : FileV) (off : Int) : Bool :=
   decide (0 ≤ off) && decide (off.toNat < F.len) && F.isLF off.toNat
+
+/-! ### dicts and lists (the de-duplicating store): a dict is an association list in insertion
+    order; `d[k] = v` replaces the value of an existing key in place and appends a new key -/
+
+def dictHas (d : List (Nat × Val)) (k : Nat) : Bool := d.any (fun p => p.1 == k)
+def dictHasV (d : List (Val × Nat)) (v : Val) : Bool := d.any (fun p => p.1 == v)
+/-- `d[v]` after a membership test (a missing key - `KeyError` - is outside the fragment) -/
+def dictGetV (d : List (Val × Nat)) (v : Val) : Nat := (d.lookup v).getD 0
+def dictSet (d : List (Nat × Val)) (k : Nat) (v : Val) : List (Nat × Val) :=
+  if dictHas d k then d.map (fun p => if p.1 == k then (k, v) else p) else d ++ [(k, v)]
+def dictSetV (d : List (Val × Nat)) (v : Val) (i : Nat) : List (Val × Nat) :=
+  if dictHasV d v then d.map (fun p => if p.1 == v then (v, i) else p) else d ++ [(v, i)]
+/-- `l[-1]` of a non-empty list (`IndexError` on an empty one is outside the fragment) -/
+def listLast (l : List Nat) : Nat := l.getLastD 0
 
 /-- Python `//` (floor division) -/
 def floordiv (a b : Int) : Int := Int.fdiv a b
